@@ -153,3 +153,41 @@ var _ = pr.AutoF
 //@   call SetPageComputedStylesT#1 assert (arg1.Blank ==> arg1.Name == "") && (!arg1.Blank ==> arg1.Name == string(tmp.InitialNextPage.Page))
 //@   call makePage#1 assert arg2 == pageType && arg4 == index + 1
 //@   call makePage#1 assert arg3 == tmp.InitialResumeAt
+
+// ---------------------------------------------------------------------------
+// C13: table column widths
+
+//@ func sum
+//@   props C13
+//@   nopanic
+//@   modifies nothing
+//@   ensures result == sum(l, 0, len(l))
+//@   loop 1 invariant rangeindex < len(l) && out == sum(l, 0, rangeindex + 1)
+//@   loop 1 decreases len(l) - rangeindex
+
+// Fixed table layout (CSS 2.1 §17.5.2.1): whatever the column widths found in the first row,
+// the last step makes the columns plus the border spacing fill the table exactly — either the
+// table is widened to the columns, or the excess is shared equally among the columns:
+//   table.Width == sum(table.ColumnWidths) + border-spacing * (numColumns + 1)
+// (for a table with at least one column).
+//@ func fixedTableLayout
+//@   props C13
+//@   requires box != nil
+//@   modifies anything
+//@   ensures[columns-fill-table] len(table.ColumnWidths) > 0 ==> table.Width.V() == sum(table.ColumnWidths, 0, len(table.ColumnWidths)) + allBorderSpacing
+//@   ensures[spacing] allBorderSpacing == borderSpacingX * real(numColumns + 1)
+//@   shows[a] extraWidth <= 0 ==> sumColumnWidths == sum(table.ColumnWidths, 0, len(table.ColumnWidths))
+//@   shows[b] extraWidth > 0 && numColumns != 0 ==> sum(table.ColumnWidths, 0, len(table.ColumnWidths)) == sumColumnWidths + extraWidth
+//@   shows[c] extraWidth <= 0 ==> table.Width.V() == sumColumnWidths + allBorderSpacing
+//@   shows[d] extraWidth > 0 ==> table.Width.V() == extraWidth + sumColumnWidths + allBorderSpacing
+//@   shows[e] len(table.ColumnWidths) == numColumns
+//@   loop 10 invariant rangeindex < len(columnWidths)
+//@   loop 10 invariant fresh(outCW)
+//@   loop 10 invariant len(outCW) == len(columnWidths)
+//@   loop 10 invariant len(columnWidths) == numColumns
+//@   loop 10 invariant sumColumnWidths == sum(outCW, 0, rangeindex + 1)
+//@   unclaimed call-BorderWidth@1-pre1 "the cell's border and padding widths have been resolved by resolvePercentagesBox (not under contract)"
+//@   loop 11 invariant rangeindex < len(outCW) && fresh(outCW) && len(outCW) == numColumns && numColumns != 0
+//@   loop 11 invariant extraPerColumn * real(numColumns) == extraWidth
+//@   loop 11 invariant table.Width.V() == extraWidth + sumColumnWidths + allBorderSpacing
+//@   loop 11 invariant sum(outCW, 0, rangeindex + 1) + sum(outCW, rangeindex + 1, len(outCW)) == sumColumnWidths + real(rangeindex + 1) * extraPerColumn
